@@ -180,7 +180,10 @@ class Prop:
         return {"prop": ID, "seed": seed,
                 "config": {"steps": steps, "arity": arity, "remove_at": remove_at,
                            "eq_nodes": eq_nodes, "small_values": c.random() < 0.5,
-                           "final": final},
+                           "final": final,
+                           # on_trait_change(..., deferred=True): defaults along the name
+                           # are not forced into existence by the registration
+                           "deferred": c.random() < 0.25},
                 "ops": ops}
 
     def execute(self, trace, env):
@@ -219,7 +222,7 @@ class Prop:
         root = world.nodes[0]
         rootm = world.mnodes[0]
         world.pinned_uids = {rootm.uid}
-        _, e = sut(root.on_trait_change, hl, name)
+        _, e = sut(root.on_trait_change, hl, name, deferred=bool(cfg.get("deferred")))
         if e is not None:
             raise Violation("C16.registration", "on_trait_change(%r) raised %r" % (name, e), 0)
         _, e = sut(root.observe, ho, G.render_text(ast))
